@@ -130,6 +130,22 @@ def run(rep, tier, seed):
         o = case_compress(b, pd, rule, None, klass='empty-fields:compress')
         if o[0] == 'OK' and isinstance(o[1], str) and is_lossless_for(n_pdesc(pd), n_rule(rule)):
             case_decompress(b, o[1], rule, None, klass='empty-fields:roundtrip', expect=''.join(vals) + bits_of(pd.payload), side=rnd3.choice([L, R]))
+    # variable-length residues at the top of the range the size prefix can announce: 65534 and 65535 bits (value-sent, and MSB/LSB on a field
+    # of 65536 bits with a one-bit pattern)
+    from microschc.rfc8724 import RuleFieldDescriptor as _RFD, RuleDescriptor as _RD3, MatchingOperator as _MO, CompressionDecompressionAction as _CDA
+    for n_res in (65534, 65535):
+        for kind in ('vs', 'lsb'):
+            v = randbits(rnd3, n_res if kind == 'vs' else n_res + 1)
+            fd = (_RFD('X:big', 0, 0, DI.BIDIRECTIONAL, Buffer(b'', 0), _MO.IGNORE, _CDA.VALUE_SENT) if kind == 'vs'
+                  else _RFD('X:big', 0, 0, DI.BIDIRECTIONAL, mk(v[:1], rnd3.choice([L, R])), _MO.MSB, _CDA.LSB))
+            rule = _RD3(id=mk(randbits(rnd3, 3)), field_descriptors=[_RFD('X:a', 5, 0, DI.BIDIRECTIONAL, Buffer(b'', 0), _MO.IGNORE, _CDA.VALUE_SENT), fd])
+            vals = [randbits(rnd3, 5), v]
+            pd = synth_pdesc(rule, vals, randbits(rnd3, rnd3.choice([0, 8])))
+            o = case_compress(b, pd, rule, None, klass='top-of-range-residue:compress:%s:%d' % (kind, n_res))
+            if o[0] == 'OK' and isinstance(o[1], str):
+                case_decompress(b, o[1], rule, None, klass='top-of-range-residue:roundtrip', expect=''.join(vals) + bits_of(pd.payload), side=R)
+            else:
+                rep.violation('property', 'a variable-length %s residue of %d bits (the size prefix can announce up to 65535): compress gave %s' % (kind, n_res, str(o)[:80]), dict(layer='schc', op='compress-top-of-range', kind=kind, residue_bits=n_res))
     b.run()
     # two hosts: this process compresses, a fresh interpreter that has only the JSON text of the context decompresses (and the other way
     # round): the packet must come back, whatever this process has parsed, matched and compressed before
